@@ -146,7 +146,8 @@ static void sc_dir(void) {
 		}
 		{ PDirEntry *e; int n = 0, files = 0, dirs = 0;
 		  va_quiet++; if (p_dir_rewind(d, NULL)) { while ((e = p_dir_get_next_entry(d, NULL)) != NULL && n < 100) { n++; if (e->type == P_DIR_ENTRY_TYPE_FILE) files++; else if (e->type == P_DIR_ENTRY_TYPE_DIR) dirs++; p_dir_entry_free(e); }
-		    if (files != 3 || dirs < 1) DAMAGE("directory object lists %d files / %d dirs after (failed) iterations, expected 3 files and the sub-directory", files, dirs); } va_quiet--; }
+		    { DIR *rd = opendir(dirpath); int raw = 0; if (rd) { while (readdir(rd)) raw++; closedir(rd); }
+		      if (n != raw || files < 3 || dirs < 1) DAMAGE("directory object lists %d entries (%d files, %d dirs) after (failed) iterations, readdir sees %d", n, files, dirs, raw); } } va_quiet--; }
 		p_dir_free(d);
 	}
 	d = p_dir_new("/nonexistent/vf-dir", &err); p_error_free(err); err = NULL; p_dir_free(d);
@@ -477,11 +478,16 @@ static void prepare_files(void) {
 	mkdir(dirpath, 0755);
 	for (i = 0; i < 3; i++) { snprintf(p, sizeof p, "%s/file%d", dirpath, i); f = fopen(p, "w"); if (f) fclose(f); }
 	snprintf(p, sizeof p, "%s/subdir", dirpath); mkdir(p, 0755);
+	/* entries that readdir reports but stat cannot resolve, plus a valid link */
+	snprintf(p, sizeof p, "%s/dangling", dirpath); if (symlink("/nonexistent/vf-target", p)) {}
+	snprintf(p, sizeof p, "%s/loop", dirpath); if (symlink("loop", p)) {}
+	snprintf(p, sizeof p, "%s/link0", dirpath); if (symlink("file0", p)) {}
 }
 static void cleanup_files(void) {
 	char p[200]; int i;
 	unlink(inipath);
 	for (i = 0; i < 3; i++) { snprintf(p, sizeof p, "%s/file%d", dirpath, i); unlink(p); }
+	snprintf(p, sizeof p, "%s/dangling", dirpath); unlink(p); snprintf(p, sizeof p, "%s/loop", dirpath); unlink(p); snprintf(p, sizeof p, "%s/link0", dirpath); unlink(p);
 	snprintf(p, sizeof p, "%s/subdir", dirpath); rmdir(p); snprintf(p, sizeof p, "%s/sub", dirpath); rmdir(p); rmdir(dirpath);
 }
 
